@@ -8,6 +8,7 @@ extra = sys.argv[3] if len(sys.argv) > 3 else ""
 p = next(json.loads(l) for l in open('/verif/properties.jsonl') if json.loads(l)['id'] == pid)
 wt = f"/tmp/wt-{pid}{tag}"
 out = f"/tmp/seed-{pid}{tag}"
+EXTRA_RULES = "Never use `git stash` (shared between worktrees); produce diffs with `git diff -- <paths>`."
 print(f"""You are helping test a verification framework for the Rust monorepo astriaorg/astria (checked out at /repo, pinned commit, builds offline with the default toolchain; NO network access, always pass --offline to cargo).
 
 Your job: produce ONE realistic source change to astriaorg/astria that BREAKS the following semantic property while the code still compiles and the existing test suite still passes, plus a demonstration that fails with your change and passes without it.
